@@ -29,18 +29,24 @@ func (a *config) MergeSpoc(d deviceconf.Config) deviceconf.Config {
 				errlog.Abort("Must not redefine chain %q of table %q from rawdata",
 					cName, tName)
 			}
+			// Rules marked with [APPEND] are inserted before
+			// trailing DROP lines of Netspoc.
+			tail := 0
+			for i := len(aChain.rules); i > 0; i-- {
+				if aChain.rules[i-1].pairs["-j"] != "DROP" {
+					break
+				}
+				tail++
+			}
+			// Other rules are prepended.
+			// Preserve order of rules from raw file.
+			pre := 0
 			for _, ru := range bChain.rules {
-				i := 0
+				i := pre
 				if ru.append {
-					// Append before last non DROP line.
-					i = len(aChain.rules)
-					for i > 0 {
-						if aChain.rules[i-1].pairs["-j"] == "DROP" {
-							i--
-						} else {
-							break
-						}
-					}
+					i = len(aChain.rules) - tail
+				} else {
+					pre++
 				}
 				aChain.rules = slices.Insert(aChain.rules, i, ru)
 			}
